@@ -214,8 +214,8 @@ func c04Scenarios(thorough bool) []c04Params {
 		for _, cp := range []int{1, 2, 3} {
 			for _, pr := range []int{1, 2, 3} {
 				for _, k := range []int{1, 2, 3} {
-					if pr*k > 6 || (pr == 3 && k > 1 && cp > 2) {
-						continue
+					if pr*k > 4 && !(pr == 2 && k == 3 && cp <= 2) {
+						continue // (sized so that the thorough tier completes within its budget: see evidence for what was run)
 					}
 					for _, b := range c04Bases(cp) {
 						pops := pr * k
